@@ -401,5 +401,26 @@ class FrontendStream(Stream):
                 yield dict(case, lines=case["lines"][:i] + case["lines"][i + 1:])
 
 
+from rv.props.c04 import CliLocationOrder
+
+
+class MultiFileDirectives(CliLocationOrder):
+    """one or two input files, each with its own repository option lines (same directive word, different values), plus
+    command-line options: every declared location reaches build_repo (shared machinery with C04's order stream)"""
+    name = "multi-file-directives"
+
+    def oracle(self, case, r):
+        if "find" not in r:
+            return [("C16/cli-rejects-option-lines-of-several-files", r)]
+        fll = self._file_lists(case)
+        fails = []
+        for k in ("find", "index", "extra"):
+            want = set(case["cmd"][k] + fll[k])
+            got = set(r[k])
+            if got != want:
+                fails.append(("C16/declared-location-not-honoured/" + k, {"declared": sorted(want), "handed-to-build_repo": r[k]}))
+        return fails
+
+
 def streams():
-    return [ReaderStream(), FrontendStream()]
+    return [ReaderStream(), FrontendStream(), MultiFileDirectives()]
